@@ -289,9 +289,9 @@ func Run(r *vk.Run) {
 	r.Assume("the P2P/DA layers still have the data after the crash (redelivery is possible)")
 	ctx := context.Background()
 	keys := world.NewKeys("proposer")
-	shapes := []string{"xx", "ex", "xe"}
+	shapes := []string{"xx", "ex", "xe", "xxx", "eex", "xee", "xexx"}
 	if !r.Quick() {
-		shapes = []string{"xx", "ex", "xe", "xxx", "eex", "xee", "xexx", "exxe", "xxexx", "eexex"}
+		shapes = []string{"xx", "ex", "xe", "xxx", "eex", "xee", "xexx", "exxe", "xxexx", "eexex", "xxxxxx", "exexex"}
 	}
 	type tuple struct {
 		p     *world.Produced
